@@ -136,6 +136,9 @@ func shapeKey(c Config) string {
 	if c.Blip != "" {
 		k += " server-link-blip=" + c.Blip
 	}
+	if c.LongDrain {
+		k += fmt.Sprintf(" backlog-handover-takes>=%ds", c.GateUs/1000000)
+	}
 	return k
 }
 
@@ -424,6 +427,10 @@ func buildSweep(run *ev.Run) []Config {
 				n++
 			}
 		}
+		// 1 config: the hand-over of the backlog parked in the NATS client takes
+		// 11 s after Stop (runs in a child process of its own, concurrently
+		// with the rest of the sweep)
+		add(longDrainConfig(rng, 1, 1, 2, 11, 0))
 		out = append(out, soleWorkerProbe(rng, len(out))...)
 		out = append(out, connLossFullProbe(rng, len(out))...)
 		return out
@@ -599,6 +606,11 @@ func buildSweep(run *ev.Run) []Config {
 			}
 		}
 	}
+	// hand-over of the parked backlog takes 11 s, 31 s, 61 s after Stop (each in
+	// a child process of its own, concurrently with the rest)
+	for i, x := range [][4]int{{1, 1, 2, 11}, {2, 2, 5, 11}, {1, 2, 3, 31}, {4, 1, 1, 31}, {2, 8, 4, 61}} {
+		add(longDrainConfig(rng, x[0], x[1], x[2], x[3], i))
+	}
 	out = append(out, soleWorkerProbe(rng, len(out))...)
 	out = append(out, connLossFullProbe(rng, len(out))...)
 	return out
@@ -660,6 +672,26 @@ func longGateConfig(rng *rand.Rand, w, q, rep int) Config {
 	c.Rest = "after"
 	c.GateUs = 6500000
 	c.Bad, c.DrainTO, c.HWM, c.StopUs = 0, "", "", 0
+	return c
+}
+
+// longDrainConfig: drain duration as a dimension.  Burst q+w+busy+extra (busy
+// = subscriptions with traffic, each of which can hold one request in a
+// callback), all of it received before Stop, handlers gated until `secs`
+// seconds after Stop was entered: at least `extra` requests sit inside the
+// NATS client behind the callbacks that are parked on the full work queue, and
+// cannot be handed over before the gate opens.  Stop must wait however long that takes and return; then Serve
+// must return with every request processed once and answered.
+func longDrainConfig(rng *rand.Rand, w, q, extra, secs, rep int) Config {
+	c := fill(rng, Config{W: w, Q: q, BClass: "q+w+busy+parked", Dur: "gate", Share: rep%2 == 1, Rep: rep})
+	c.B = w + q + c.Busy + extra
+	c.K = c.B
+	c.Rest = "after"
+	c.Arrival = "burst"
+	c.GateUs = secs * 1000000
+	c.LongDrain = true
+	c.Bad, c.DrainTO, c.HWM, c.StopUs, c.NoReply = 0, "", "", 0, 0
+	c.PureRecv = false // "callback parked on the full queue" is observed through the received handler
 	return c
 }
 
@@ -909,7 +941,7 @@ var panicNorm = regexp.MustCompile(`0x[0-9a-fA-F]+|\d+`)
 
 func runC20(tier string, args []string) int {
 	run := ev.New("C20", tier, "exploration")
-	run.Rule("configuration sweep workers {1,2,4,8} x queue {1,2,8,64} x burst {1,q,q+w,q+w+1,2(q+w),10(q+w)} x handler {0,1ms,5ms,PRNG 0-3ms,gate released after Stop is called} x position of Stop (incl. position 0 issued right after `go Serve()` without waiting for the subscription, with no / Gosched / 1-200us yields so that Stop is called both before and after Serve is parked; otherwise k of b double-flushed into the server's NATS client first; the rest published concurrently with Stop and/or after it returned; one extra request after Stop returned in every scenario) x caller of Stop (harness goroutine, or a worker goroutine: the processor / started / finished event handler of a shutdown request placed inside the double-flushed stream, wherever the drain can finish without that worker) x subjects 1-4 with traffic on a subset (idle subscriptions next to busy ones, incl. full queue with exactly as many requests parked in the NATS client as there are idle subjects) x WithHighWatermark {default, 1ms, 10ms, 50ms} incl. queue waits beyond it, the library's default request-received handler always in effect (wrapped by the counter, or left to the builder) x queue length also 0 and 1 (workers 1, 2, 4, 8) x handlers gated for 6.5 s after Stop was called (Serve must not return before they are answered) x queue group or none, subject list naming a subject twice (with a queue group) x late requests after Stop AND Serve returned in every scenario (the stopped server takes nothing off NATS: no request-received event, no processing, and a probe member of the queue group subscribed after Serve returned sees every late request) x failing requests (>= worker count: message shorter than the frame size, bad header version, truncated header, processor error) interleaved in front of well-formed ones x fault 'server connection lost right before Stop' (NoReconnect; TCP cut through a relay / private broker shut down; k <= q+w requests in the work queue; replies not judged, processing before Serve returns is) x messages WITHOUT reply subject (plain Publish on a service subject; 0 in 10 of 16 configs, else 1, 2, 5, at any position of the received-before-Stop stream; nothing is demanded for them, 'finished == received' allows for them) x fault 'link blip of the server connection' (default reconnect behaviour, ReconnectWait 20ms / 1ms, through a relay that goes down AFTER Stop returned and every drained subscription left the client's table, with k <= q+w accepted requests parked on the gate and nothing of the server on its way to the socket; the gate opens once the connection reports RECONNECTING, so every reply is published into the client's reconnect buffer; the link comes back after Serve returned or 0-2ms after the gate opened; replies judged after status CONNECTED + a Flush round trip; if Stop has not returned 10s after it was called the gate opens without a blip) x server connection option DrainTimeout {default, bare Options literal = 0, 1ms, 50ms} incl. backlogs that outlast it x server connection shared with an unrelated subscription or not x 1-2 subjects x arrival pattern; every scenario runs a real FNatsServer against an embedded nats-server in a child process; distinct = (w, q, burst class, handler mode, stop-position class, rest mode, sharing, subjects)")
+	run.Rule("configuration sweep workers {1,2,4,8} x queue {1,2,8,64} x burst {1,q,q+w,q+w+1,2(q+w),10(q+w)} x handler {0,1ms,5ms,PRNG 0-3ms,gate released after Stop is called} x position of Stop (incl. position 0 issued right after `go Serve()` without waiting for the subscription, with no / Gosched / 1-200us yields so that Stop is called both before and after Serve is parked; otherwise k of b double-flushed into the server's NATS client first; the rest published concurrently with Stop and/or after it returned; one extra request after Stop returned in every scenario) x caller of Stop (harness goroutine, or a worker goroutine: the processor / started / finished event handler of a shutdown request placed inside the double-flushed stream, wherever the drain can finish without that worker) x subjects 1-4 with traffic on a subset (idle subscriptions next to busy ones, incl. full queue with exactly as many requests parked in the NATS client as there are idle subjects) x WithHighWatermark {default, 1ms, 10ms, 50ms} incl. queue waits beyond it, the library's default request-received handler always in effect (wrapped by the counter, or left to the builder) x queue length also 0 and 1 (workers 1, 2, 4, 8) x handlers gated for 6.5 s after Stop was called (Serve must not return before they are answered) x drain duration: burst q+w+(subjects with traffic)+{1..5} all received before Stop, handlers gated until 11 s (quick; thorough also 31 s, 61 s) after Stop was entered, so the hand-over of the backlog parked inside the NATS client - which Stop waits for - takes at least that long (duration is a workload parameter, never an oracle; each such scenario in a child process of its own, concurrent with the rest; no-progress watchdog = gate + 15 s where that exceeds 30 s) x queue group or none, subject list naming a subject twice (with a queue group) x late requests after Stop AND Serve returned in every scenario (the stopped server takes nothing off NATS: no request-received event, no processing, and a probe member of the queue group subscribed after Serve returned sees every late request) x failing requests (>= worker count: message shorter than the frame size, bad header version, truncated header, processor error) interleaved in front of well-formed ones x fault 'server connection lost right before Stop' (NoReconnect; TCP cut through a relay / private broker shut down; k <= q+w requests in the work queue; replies not judged, processing before Serve returns is) x messages WITHOUT reply subject (plain Publish on a service subject; 0 in 10 of 16 configs, else 1, 2, 5, at any position of the received-before-Stop stream; nothing is demanded for them, 'finished == received' allows for them) x fault 'link blip of the server connection' (default reconnect behaviour, ReconnectWait 20ms / 1ms, through a relay that goes down AFTER Stop returned and every drained subscription left the client's table, with k <= q+w accepted requests parked on the gate and nothing of the server on its way to the socket; the gate opens once the connection reports RECONNECTING, so every reply is published into the client's reconnect buffer; the link comes back after Serve returned or 0-2ms after the gate opened; replies judged after status CONNECTED + a Flush round trip; if Stop has not returned 10s after it was called the gate opens without a blip) x server connection option DrainTimeout {default, bare Options literal = 0, 1ms, 50ms} incl. backlogs that outlast it x server connection shared with an unrelated subscription or not x 1-2 subjects x arrival pattern; every scenario runs a real FNatsServer against an embedded nats-server in a child process; distinct = (w, q, burst class, handler mode, stop-position class, rest mode, sharing, subjects)")
 	run.Assume("embedded nats-server v2 routes a PUB to the subscribers' outbound queues before it answers the publisher's PING, and a connection's PONG follows the MSGs queued before it (the double flush defines 'received before Stop', as the pinned TestShutdown does on one connection)")
 	run.Assume("nats.go SubscribeSync/Pending/NextMsg on the collector connection and Flush are correct (reply collector)")
 	run.Assume("link blip: nats.go switches a connection's writer to its reconnect buffer before Status() reports RECONNECTING, a Publish in that state returns nil and is written to the new socket before Status() reports CONNECTED (8 MB buffer, replies are < 100 bytes); the relay cuts the link only when no reply can be on its way to the socket")
@@ -973,9 +1005,25 @@ func runC20(tier string, args []string) int {
 	var jobs []job
 	// deal configs round-robin so that every batch gets a mix of cheap and
 	// expensive cells
-	nb := (len(configs) + batchSize - 1) / batchSize
+	// long-drain scenarios cost their gate time in wall clock: each gets a child
+	// process and a pool slot of its own, started first, so that the time is
+	// spent concurrently with the rest of the sweep
+	own := 0
+	var pooled []Config
+	for _, c := range configs {
+		if c.LongDrain && replay == "" {
+			jobs = append(jobs, job{binary: self, tag: fmt.Sprintf("own%d", own), cfgs: []Config{c}})
+			own++
+			continue
+		}
+		pooled = append(pooled, c)
+	}
+	nb := (len(pooled) + batchSize - 1) / batchSize
+	if nb < 1 {
+		nb = 1
+	}
 	buckets := make([][]Config, nb)
-	for i, c := range configs {
+	for i, c := range pooled {
 		buckets[i%nb] = append(buckets[i%nb], c)
 	}
 	for i, b := range buckets {
@@ -999,7 +1047,7 @@ func runC20(tier string, args []string) int {
 			if len(sample) >= 160 {
 				break
 			}
-			if configs[i].B <= 100 {
+			if configs[i].B <= 100 && !configs[i].LongDrain {
 				sample = append(sample, configs[i])
 			}
 		}
@@ -1022,7 +1070,7 @@ func runC20(tier string, args []string) int {
 	jobC := make(chan job)
 	outC := make(chan *batchOutcome)
 	var wg sync.WaitGroup
-	for i := 0; i < par; i++ {
+	for i := 0; i < par+own; i++ {
 		wg.Add(1)
 		go func() {
 			defer wg.Done()
@@ -1155,6 +1203,16 @@ func runC20(tier string, args []string) int {
 		}
 		if r.Config.Dur == "gate" && r.Config.GateUs >= 5000000 {
 			run.Add("scenarios_handlers_gated_longer_than_5s_after_stop", 1)
+		}
+		if r.Config.LongDrain {
+			run.Add("scenarios_long_drain", 1)
+			// diagnostic: Stop was observed to wait for the hand-over
+			if r.StopMs >= float64(r.Config.GateUs)/1000 {
+				run.Add(fmt.Sprintf("scenarios_stop_waited_%ds_or_longer_for_the_parked_backlog", r.Config.GateUs/1000000), 1)
+			}
+			if r.AtStop.Received-r.AtStop.Started > int64(r.Config.Q) && r.Pre > int(r.AtStop.Received) {
+				run.Add("scenarios_long_drain_with_requests_parked_in_nats_client_at_stop", 1)
+			}
 		}
 		if r.Config.QGroup {
 			run.Add("scenarios_with_queue_group", 1)
